@@ -286,20 +286,33 @@ def scen_last_bytes(ctx, M):
     e2 = ctx.int('errno2', 1, 200)
     ctx.assume(e2 != _errno.EINVAL)
 
+    W.size = N
+    injected = []     # the error is injected into seek(.., SEEK_END) only
+
     class F_:
         def __init__(self):
             self.pos = 0
 
+        def __getattr__(self, name):
+            # more of the file API than the stub offers: inconclusive
+            raise core.Unsupported('file stub has no %s()' % name)
+
+        def fileno(self):
+            return 9
+
         def seek(self, off, whence=0):
             if whence == _os.SEEK_END:
                 if other:
+                    injected.append(e2)
                     raise oserror(e2)
                 p = N + off
-                if ctx.truth(p < 0):
-                    raise oserror(_errno.EINVAL)
-                self.pos = p
+            elif whence == _os.SEEK_CUR:
+                p = self.pos + off
             else:
-                self.pos = off
+                p = off
+            if ctx.truth(p < 0):
+                raise oserror(_errno.EINVAL)
+            self.pos = p
             return self.pos
 
         def tell(self):
@@ -332,7 +345,7 @@ def scen_last_bytes(ctx, M):
             out = 'OSError'
         except Exception as x:
             out = 'EXC:' + type(x).__name__
-    if other:
+    if injected:
         ctx.goal('other-error')
         ctx.check('C20-last-bytes-reraises', out == 'OSError')
         return (out,)
